@@ -28,7 +28,7 @@ render(script) the Scenarist text.  The grammar is enforced by construction in t
 
 profile(**switches) selects the classes: styles / mix (styles inside one file, always separated by EDM), the feature switches
 (indent, to, pac_attr, mid, special, extended, bs, pad, ch2, f2, parity, df, brk_rows, edm_pre, cr_no_pac), the labelled classes
-(undoubled, row_order, roll_base, pad_inside, paint_accumulate, mid_runs, pop_leftover) and the switches that let the triggers of
+(undoubled, row_order, roll_base, roll_blank, pad_inside, paint_accumulate, mid_runs, pop_leftover) and the switches that let the triggers of
 known reader defects in (paint_c1, italics_on_colour, trailing_mid, paint_c4; all off in the main classes, see vt/props/c08.py).
 """
 from hypothesis import strategies as st
@@ -435,6 +435,8 @@ def flatten(script):
           pen = p["color"]
         else:
           flat.labels.add("roll:CR-without-PAC")
+        if not r["items"]:
+          flat.labels.add("roll:blank-row")
         pen = _items(em, r["items"], 32 - col, "roll", flat, pen)
       em.flush()
     else:
@@ -747,6 +749,9 @@ def roll_caption(draw, prof, base=15):
     if pac:
       pen = pac["color"]
     row = {"pac": pac, "items": draw(_row_items(32 - col, prof, "roll", pen)), "ru": draw(st.booleans())}
+    if i and prof["roll_blank"] and draw(st.integers(0, 4)) == 0:
+      # a blank row (CR directly followed by the next CR): it is a row of the window like any other
+      row["items"] = []
     pen = ([pen] + [i["color"] for i in row["items"] if i["t"] == "mid" and i["color"]])[-1]
     if i:
       row["brk"] = draw(st.integers(0, 40)) if draw(st.integers(0, 5)) else None
@@ -771,7 +776,7 @@ def profile(**kw):
   p = dict(styles=("pop", "roll", "paint"), mix=False, max_caps=5, max_rows=4, indent=True, to=True, pac_attr=True, mid=True, special=True,
            extended=True, bs=True, rich=True, pad=True, pad_inside=False, ch2=True, f2=True, undoubled=False, brk_rows=True,
            row_order=False, contiguous=False, pop_leftover=False, edm_pre=True, cr_no_pac=True, roll_base=False,
-           paint_accumulate=False, paint_c1=False, paint_c4=False, parity=True, df=True, italics_on_colour=False, mid_pairs=True, mid_runs=False, trailing_mid=False)
+           paint_accumulate=False, roll_blank=False, paint_c1=False, paint_c4=False, parity=True, df=True, italics_on_colour=False, mid_pairs=True, mid_runs=False, trailing_mid=False)
   for k in kw:
     if k not in p:
       raise KeyError(k)
@@ -850,6 +855,7 @@ def leftovers(caps, rows_out=None):
   (memories are tracked as sets of row numbers; None = rows not tracked, e.g. what a roll-up or paint-on caption left displayed)"""
   out = []
   disp = nond = frozenset()
+  mode = None
   for cap in caps:
     left = False
     overlap = False
@@ -864,9 +870,10 @@ def leftovers(caps, rows_out=None):
         disp = frozenset()
       disp, nond = nond, disp
     else:
-      # (RU2-4 coming from pop-on/paint-on erases both memories, but a load without ENM after such a switch is still classified
-      # as leftover: conservative, keeps the main class to what every encoder does)
+      if cap["style"] == "roll" and mode in ("pop", "paint"):
+        nond = frozenset()          # RU2-4 coming from pop-on / paint-on erases both memories
       disp = None
+    mode = cap["style"]
     if cap.get("edm") is not None:
       disp = frozenset()
     out.append(left)
